@@ -75,9 +75,12 @@ def names_and_digest(req):
     d = tempfile.mkdtemp()
     try:
         fn = jit.compile_expressions if is_expr else jit.compile_forms
+        kw = {}
+        if req.get("compile_args"):
+            # (callers that pass no flags rely on the entry point's own default, like most users)
+            kw["cffi_extra_compile_args"] = req["compile_args"] if req.get("share_args_list") else list(req["compile_args"])
         try:
-            fn(objs, options=options, cache_dir=d, cffi_extra_compile_args=list(req.get("compile_args") or []),
-               cffi_debug=bool(req.get("cffi_debug", False)))
+            fn(objs, options=options, cache_dir=d, cffi_debug=bool(req.get("cffi_debug", False)), **kw)
         except Abort:
             pass
     finally:
@@ -117,6 +120,17 @@ def main():
 
         for f in unrelated_objects(2):
             ffcx.compiler.compile_ufl_objects([f], options=ffcx.options.get_options({}), namespace="x")
+    if case.get("history") == "hostile":
+        # earlier requests in this process that differ from the target only in what must not leak into its name: debug builds,
+        # other flags (one list object reused by the caller), other options
+        r0 = case["requests"][0]
+        shared = ["-O1"]
+        for mod in ({"cffi_debug": True}, {"compile_args": shared, "share_args_list": True}, {"cffi_debug": True, "compile_args": shared, "share_args_list": True},
+                    {"options": dict(r0.get("options") or {}, table_atol=0.05)}, {"options": dict(r0.get("options") or {}, scalar_type="float32")}):
+            try:
+                names_and_digest(dict(r0, digest=False, **mod))
+            except Exception:
+                pass
     if case.get("history") == "churn":
         # name many short-lived near-miss requests first: their objects are freed, later objects reuse their addresses
         import gc
